@@ -139,6 +139,13 @@ Definition in_flight (st : state) : bool :=
 Lemma vis_progress : forall st t lab st', step st t = Some (Some lab, st') -> stim lab = false -> progress st t.
 Proof. intros st t lab st' E Hs. exists (Some lab), st'. split; [exact E|]. intros l X. inversion X; subst. exact Hs. Qed.
 
+(* the return step of Subscribe (ok, or the error of a rejected call) is always enabled *)
+Lemma sret_progress : forall st s c, nth_error (subs st) s = Some c -> spc c = SRet -> progress st (TSub s).
+Proof.
+  intros st s c Ec Ep. destruct (styps c) as [[|? ?]|] eqn:Et;
+    (eapply vis_progress; [cbn; unfold step_sub; rewrite Ec, Ep, Et; reflexivity|reflexivity]).
+Qed.
+
 Lemma emit_progress : forall st k e, Good st -> consumers_live st -> nth_error (emits st) k = Some e ->
   emit_in_flight e = true -> some_progress st.
 Proof.
@@ -237,7 +244,7 @@ Proof.
     exists (TSub s). apply enabled_tau_progress. cbn. unfold step_sub. rewrite Ec, Ep. destruct (styps c); rewrite Hw; unfold tau; eauto.
   - destruct (readers_chain st G CL) as [Z|X]; [|exact X].
     exists (TSub s). apply enabled_tau_progress. cbn. unfold step_sub. rewrite Ec, Ep. destruct (styps c); rewrite Z; cbn; unfold tau; eauto.
-  - exists (TSub s). eapply vis_progress; [cbn; unfold step_sub; rewrite Ec, Ep; destruct (styps c); reflexivity|reflexivity].
+  - exists (TSub s). eapply sret_progress; eassumption.
   - (* Subscribe done: Close in flight *)
     destruct (cpc c) eqn:Ek; try discriminate.
     + pose proof (X2 i eq_refl) as Hl. destruct (nth_error (snodes c) i) as [n|] eqn:Es; [|apply nth_error_None in Es; lia].
